@@ -18,7 +18,7 @@ RULE = ("plan = left frame + right frame (0..8 rows each quick / 0..20 thorough;
         "either side, or a renamed key, or 2 key columns, or an unmatched row on each side). Distinct = plan hash.")
 CASES = {"quick": 1200, "thorough": 12000}
 
-KEY_KINDS = ["b", "i", "f", "s", "s", "u", "d", "t", "o", "oi"]
+KEY_KINDS = ["b", "i", "i", "f", "s", "s", "u", "d", "t", "o", "oi", "i8", "u8", "i32", "f32", "td", "tn"]
 PAY_KINDS = ["f", "i", "b", "s", "d", "o", "td", "t", "ob"]
 OPS = ["left", "left", "inner", "semi", "anti", "full", "full"]
 
